@@ -4,30 +4,66 @@ import vf
 
 META = {
     "claimed": True,
-    "text": "TODO",
-    "note": "TODO",
-    "technique": "Coq proof + model/implementation correspondence",
+    "text": ("Coq theorems over a Gallina model of src/model/external_data.rs: (a) is_allowed_external_data_path accepts exactly "
+             "a single plain file name (no separator, not '.'/'..', recognised 'data*'/'onnx_data*' extension), optionally followed "
+             "by '/' and '/.' noise that std's component iteration drops, and PathBuf::push of an accepted location onto an "
+             "absolute model directory yields that directory's components plus exactly one Normal component; (b) for the "
+             "in-memory, mmap and file loaders, for ALL u64 offset/length pairs (saturating and wrapping sums modelled, debug "
+             "and release builds) and every file no longer than isize::MAX, a successful load returns exactly "
+             "file[offset, offset+length) inside the file, every out-of-range or disallowed request is a load error, and the "
+             "panic/abort/fuel outcomes of the model are unreachable; FileLoader's chunked read loop is proved to return the "
+             "requested bytes for every positive chunk size. The model is tied to the code end to end through the public API "
+             "(ModelOptions::external_data+load, load_file, load_mmap on harness-written ONNX models with an external-data "
+             "initializer, in release and debug builds): outcomes (bytes obtained / error kind / required+actual lengths) and "
+             "std::path's components()/extension() are compared with the model inside Coq on every run, and the "
+             "implementation's own outcomes are checked against an independent property oracle (lexical direct child, "
+             "exact byte range)."),
+    "note": ("Trusted: Coq kernel; hand model of libstd's Unix std::path (components, extension, push) -- compared with the real "
+             "libstd on every case; the OS (what open() of dir/<name> resolves to, symlinks, lseek/read/mmap behaviour: the "
+             "model takes the file-system answer as an input); the ONNX protobuf decoder and tensor construction between the "
+             "loader and the observed output; the correspondence sample (a test, not a proof). Finding F21.1 (FileLoader "
+             "aborted the process on a huge declared length) is fixed in the tree the theorems describe."),
+    "technique": "Coq proof (induction over path bytes / read-loop fuel, N arithmetic) + end-to-end model/implementation correspondence",
 }
 GROUP = "extdata"
 REQ = "From RV Require Import Prelude.\nFrom ExtData Require Import ExtData.\nOpen Scope N_scope."
-THEOREMS = []
-
-
-def classify(case):
-    return None
+THEOREMS = ["C21_allowed_is_plain_filename", "C21_plain_filename_allowed", "C21_join_stays_in_dir",
+            "C21_load_in_bounds", "C21_load_total", "C21_out_of_range_is_error", "C21_disallowed_is_error",
+            "C21_read_loop_spec", "C21_prop_ok_sound", "C21_lex_child_sound", "C21_allowed_implies_lex_child",
+            "C21_nonvacuous"]
 
 
 def main(ctx):
+    ctx.rule = ("every location of a fixed pool (valid names, traversal, absolute, Windows-style, NUL, unicode, trailing "
+                "'/' and '/.') through all three loaders; exhaustive token sequences over {'/','.','a','data','onnx_data'} "
+                "up to length 4 (quick) / 6 (thorough); offset/length grids around each file's length, the 8192-byte chunk "
+                "size, 2^31, 2^32, 2^63, 2^64-1 and wrapping sums; seeded random mutated locations x ranges; both build "
+                "profiles. A case is trivial when the location is empty; distinct = distinct (loader, location, key, offset, length)")
+    ctx.trusted += ["modelled, not verified: libstd std::path (components/extension/push, Unix) -- hand model, compared on every case",
+                    "OS path resolution, symlinks, open/lseek/read/mmap semantics: file-system answer is an input of the model",
+                    "rten-onnx protobuf decoding, tensor construction and Model::run between the loader and the observed bytes",
+                    "memmap2 crate (mmap loader)"]
+    ctx.assumptions += ["files are no longer than isize::MAX bytes (Rust slice invariant)",
+                        "the model directory contains no symlinks (lexical containment only)"]
     ctx.audit(GROUP)
-    failed = ctx.prove(GROUP, "Props_C21", THEOREMS) if THEOREMS else []
+    failed = ctx.prove(GROUP, "Props_C21", THEOREMS)
     env = {"C21_DIR": os.path.join(vf.CACHE, "c21-work")}
+    inputs = ctx.replay_inputs()
     for profile in ("release", "debug"):
-        if profile == "debug" and os.environ.get("C21_SKIP_DEBUG"):
-            continue
         bindir = ctx.harness(GROUP, profile=profile, bins=["c21"], hooks=False)
-        n = ctx.n(1500, 40000) if profile == "release" else ctx.n(300, 4000)
-        cases = ctx.gen_exec(bindir, "c21", n, inputs=ctx.replay_inputs(), env=env)
-        ctx.correspond("external_data[%s]" % profile, GROUP, REQ, cases, classify=classify, show="show",
+        if inputs is None:
+            # one generated input set (from the release binary), executed in both profiles
+            rc, out = vf.sh([os.path.join(bindir, "c21"), "gen", str(ctx.seed), str(ctx.n(600, 30000)), ctx.tier], timeout=600)
+            if rc != 0:
+                raise vf.CheckerBroken("c21 gen failed: " + out[-400:])
+            inputs = [l for l in out.split("\n") if l.strip()]
+        ins = inputs
+        if profile == "debug" and not ctx.replay_path:
+            # the debug build only differs in overflow behaviour: run the range grids and a slice of the rest
+            ins = [l for i, l in enumerate(inputs) if l.split("|")[3] != "0" or l.split("|")[4] not in ("4", "5", "6") or i % 7 == 0]
+            ins = ins[: ctx.n(1000, 40000)]
+        cases = ctx.gen_exec(bindir, "c21", 0, inputs=ins, env=env)
+        ctx.correspond("external_data[%s]" % profile, GROUP, REQ, cases, show="show",
                        fn_name="ExtData.load / ExtData.allowed / ExtData.components (%s build)" % profile)
     if failed and not ctx.violations:
         ctx.proof_broken(failed, "all correspondence cases of this run")
